@@ -488,12 +488,12 @@ fn main() {
     };
     let plan: Vec<(Project, Vec<Config>)> = if thorough {
         vec![
-            (examples, matrix(2, 30, &other_b)),
-            (diagp, matrix(1, 24, &other_a)),
-            (bug_samples, choose(matrix(1, 24, &other_a), 14, &mut rng)),
-            (hash_chain, choose(matrix(1, 40, &other_b), 12, &mut rng)),
-            (fib_array, choose(matrix(1, 40, &other_b), 12, &mut rng)),
-            (starknet, choose(matrix(1, 24, &other_b), 16, &mut rng)),
+            (examples, matrix(4, 30, &other_b)),
+            (diagp, matrix(2, 24, &other_a)),
+            (bug_samples, matrix(1, 24, &other_a)),
+            (hash_chain, choose(matrix(1, 40, &other_b), 20, &mut rng)),
+            (fib_array, choose(matrix(1, 40, &other_b), 20, &mut rng)),
+            (starknet, choose(matrix(1, 24, &other_b), 28, &mut rng)),
         ]
     } else {
         vec![
